@@ -40,7 +40,6 @@ type Env interface {
 	OneColumnRefused(t T, c *pcase) string
 	AcceptsFull(t T, c *pcase) bool
 	TassaZeroScaleProbe(t T, c *pcase) bool
-	ISNEmptyShareProbe(t T, c *pcase, h int) (empty, panicked bool)
 	TassaAdmission(t T, c *pcase, verdict int, increasing bool) string
 }
 
